@@ -492,7 +492,8 @@ def check_property(pid, tier, seed, reg, results_cache):
     scan = set()
     rewrites = {}
     cone = []
-    # cone of the property: the functions tagged with it (or all functions of a units_all unit), closed under "calls" (by simple
+    # cone of the property: the functions tagged with it (or all functions of a units_all unit, or named by a `cone_also` pattern: the
+    # constructors that ESTABLISH the representation invariants the tagged functions are proved relative to), closed under "calls" (by simple
     # name, within the property's units and dep_units): a callee whose own contract fails breaks the caller's proof assumptions
     def simple(fnname):
         return fnname.split('::')[-1].strip()
@@ -503,7 +504,7 @@ def check_property(pid, tier, seed, reg, results_cache):
     in_cone = set()
     work = []
     for un, f in allf:
-        if pid in f['props'] or un in spec.get('units_all', []):
+        if pid in f['props'] or un in spec.get('units_all', []) or any(re.search(rx, f['fn']) for rx in spec.get('cone_also', [])):
             k = (f['fn'], f['file'])
             if k not in in_cone:
                 in_cone.add(k)
